@@ -206,7 +206,9 @@ func checkNotifyMsg(c *Ctx, res *report.Result) {
 	if f == nil {
 		return
 	}
-	unreg := flow.FindCalls(f, func(cc *ssa.CallCommon) bool { return flow.IsCallTo(cc, proxyPkg, "shardManagerImpl", "UnregisterShard") })
+	unreg := flow.FindCalls(f, func(cc *ssa.CallCommon) bool {
+		return flow.IsCallTo(cc, proxyPkg, "shardManagerImpl", "UnregisterShard")
+	})
 	if len(unreg) != 1 {
 		res.Undec(rule, "NotifyMsg: UnregisterShard call", fnPos(c.Prog, f), fmt.Sprintf("%d calls", len(unreg)))
 		return
@@ -233,6 +235,85 @@ func checkNotifyMsg(c *Ctx, res *report.Result) {
 			}
 		}
 	}
+	// the eviction is reached for every decodable register announcement that names a locally held, older
+	// shard: no other condition (e.g. the sender's presence in the asynchronously merged membership table)
+	// may stand between the announcement and the eviction
+	for _, g := range flow.NormGuards(flow.Guards(u.Block())) {
+		cond := g.Cond
+		if ld := flow.ResolveLoad(cond); ld != nil {
+			cond = ld
+		}
+		k := classifyCond(cond, g.Side)
+		allowed := false
+		switch k.kind {
+		case "nil", "nilval":
+			allowed = !k.truth
+		case "errnil":
+			allowed = k.truth
+		case "call":
+			allowed = strings.HasSuffix(k.arg, "Before") && k.truth
+		case "other":
+			switch x := cond.(type) {
+			case *ssa.BinOp:
+				if sv, isS := flow.ConstString(x.Y); isS && sv == "register" {
+					allowed = true
+				}
+			case *ssa.Extract:
+				// the comma-ok of the localShards lookup
+				if lk, isL := x.Tuple.(*ssa.Lookup); isL && x.Index == 1 && g.Side {
+					if _, fld, okf := flow.FieldLoadOf(lk.X); okf && fld == "localShards" {
+						allowed = true
+					}
+				}
+			}
+		}
+		if !allowed {
+			res.Viol(rule, "NotifyMsg: every register announcement for a locally held older shard reaches the eviction", instrPos(c.Prog, u), "the eviction is additionally conditional on "+flow.Describe(cond)+fmt.Sprintf(" = %v", g.Side)+": an announcement that fails this test is dropped for good (announcements are not repeated), so both instances keep the shard")
+		}
+	}
+	res.Hold(rule, "NotifyMsg: eviction guard set", instrPos(c.Prog, u), "guards are only: decodable, manager/listener present, type == register, shard held locally, local claim older")
+	// the same as a path rule (catches early returns that no single condition dominates): with the legitimate
+	// exits pruned, no path from entry reaches a return without passing the eviction
+	legit := func(a, b *ssa.BasicBlock) bool {
+		if len(a.Instrs) == 0 {
+			return false
+		}
+		br, isIf := a.Instrs[len(a.Instrs)-1].(*ssa.If)
+		if !isIf || len(a.Succs) != 2 {
+			return false
+		}
+		side := b == a.Succs[0]
+		cond := br.Cond
+		if ld := flow.ResolveLoad(cond); ld != nil {
+			cond = ld
+		}
+		k := classifyCond(cond, side)
+		switch k.kind {
+		case "nil", "nilval":
+			return k.truth
+		case "errnil":
+			return !k.truth
+		case "call":
+			return strings.HasSuffix(k.arg, "Before") && !k.truth
+		case "other":
+			c2 := k.val
+			switch x := c2.(type) {
+			case *ssa.BinOp:
+				if sv, isS := flow.ConstString(x.Y); isS && sv == "register" {
+					return (x.Op == token.EQL) != k.truth
+				}
+			case *ssa.Extract:
+				if lk, isL := x.Tuple.(*ssa.Lookup); isL && x.Index == 1 {
+					if _, fld, okf := flow.FieldLoadOf(lk.X); okf && fld == "localShards" {
+						return !k.truth
+					}
+				}
+			}
+		}
+		return false
+	}
+	pr := flow.FindPath(flow.Point{Block: f.Blocks[0]}, flow.IsReturn, func(x ssa.Instruction) bool { return x == ssa.Instruction(u) }, func(a, b *ssa.BasicBlock) bool { return !legit(a, b) })
+	res.Check(!pr.Found, rule, "NotifyMsg: no exit skips the eviction of an older local claim", fnPos(c.Prog, f), "every return is behind: undecodable message, no manager/listener, type != register, shard not held locally, or local claim not older", "a register announcement for a locally held, older shard can be dropped without evicting the local claim (path "+flow.BlockPath(pr.Via)+" returns at "+instrPosOrEmpty(c, pr.End)+"): announcements are sent once, so both instances keep the shard")
 	okBefore := false
 	why := "the local unregistration is not conditional on localShard.Created.Before(msg.Timestamp)"
 	if before != nil {
@@ -300,7 +381,9 @@ func checkLeave(c *Ctx, res *report.Result) {
 		res.Check(ranged && skipSelf, rule, "GetRemoteShardsForPeer: reads remoteNodeStates and skips the local node", fnPos(c.Prog, f), "ok", "the owner view is not derived from the merged remote states minus this node")
 	}
 	if f := resolve(c, res, rule, anchor{"proxy", "*shardManagerImpl", "getShardOwner"}); f != nil {
-		calls := flow.FindCalls(f, func(cc *ssa.CallCommon) bool { return flow.IsCallTo(cc, proxyPkg, "shardManagerImpl", "GetRemoteShardsForPeer") })
+		calls := flow.FindCalls(f, func(cc *ssa.CallCommon) bool {
+			return flow.IsCallTo(cc, proxyPkg, "shardManagerImpl", "GetRemoteShardsForPeer")
+		})
 		ok := len(calls) == 1
 		if ok {
 			if s, isS := flow.ConstString(calls[0].Common().Args[1]); !isS || s != "" {
@@ -362,4 +445,11 @@ func checkIntraSenders(c *Ctx, res *report.Result) {
 			}
 		}
 	}
+}
+
+func instrPosOrEmpty(c *Ctx, ins ssa.Instruction) string {
+	if ins == nil {
+		return ""
+	}
+	return instrPos(c.Prog, ins)
 }
